@@ -313,7 +313,22 @@ fn cmd_sweep(args: &[String]) -> i32 {
         && !reports.iter().any(|r| r.violations.iter().any(|v| !v.known))
     {
         let (n, a) = if tier == "quick" { (4, 6) } else { (4, 8) };
-        let fr = free::explore(n, a, pl.judge.target, threads(), Some(deadline));
+        // C01 also with payload destructors that panic (a call that unwinds half-way must leave the
+        // links consistent), at a smaller bound: such arenas keep nodes whose payload is gone
+        if prop == "C01" {
+            let (bn, ba) = if tier == "quick" { (3, 4) } else { (3, 5) };
+            let fb = free::explore(bn, ba, pl.judge.target, threads(), Some(deadline), true);
+            eprintln!(
+                "[{prop} {tier}] model-free closure with panicking destructors ({bn},{ba}): states={} transitions={} exhaustive={} violations={} {:.1}s",
+                fb.states, fb.transitions, fb.exhaustive, fb.violations.len(), fb.wall_s
+            );
+            for (f, path) in &fb.violations {
+                free_unknown += emit_simple(&prop, &format!("free-bomb|{}", f.sig), &format!("after the calls {:?}: {}", path, f.detail), &known,
+                    json!({"engine": "free", "init": "Arena::new()", "calls": path}));
+            }
+            free_counts = (fb.states, fb.transitions);
+        }
+        let fr = free::explore(n, a, pl.judge.target, threads(), Some(deadline), false);
         eprintln!(
             "[{prop} {tier}] model-free closure ({n},{a}): states={} transitions={} exhaustive={} violations={} {:.1}s{}",
             fr.states, fr.transitions, fr.exhaustive, fr.violations.len(), fr.wall_s,
@@ -325,7 +340,7 @@ fn cmd_sweep(args: &[String]) -> i32 {
         }
         free_json = json!({"bounds": [n, a], "states": fr.states, "transitions": fr.transitions, "levels": fr.levels,
             "exhaustive": fr.exhaustive, "cap_hit": fr.cap_hit, "sample_history": fr.sample, "wall_s": fr.wall_s});
-        free_counts = (fr.states, fr.transitions);
+        free_counts = (free_counts.0 + fr.states, free_counts.1 + fr.transitions);
     }
     // C09 / C02: counters narrower than usize (depth, width) — a chain 70 000 deep and a node 70 000 wide
     if (prop == "C09" || prop == "C02") && arg(args, "--bounds").is_none() {
